@@ -257,7 +257,7 @@ def subchecks(tier):
             prop,
             quick=200,
             thorough=6000,
-            floors={"json": 0.245, "crash_at_last_period": 0.05, "crash_with_ev_and_pending_event": 0.272, "schedule_history_on": 0.145, "json_via_path": 0.1, "noise": 0.2},
+            floors={"json": 0.245, "crash_at_last_period": 0.05, "crash_with_ev_and_pending_event": 0.272, "schedule_history_on": 0.106, "json_via_path": 0.056, "noise": 0.2},
         )
     ]
 
